@@ -263,3 +263,9 @@ def m_std_display(I, fr, callee, m, args):
 @model(r'^<&(.*) as (Display|Debug)>::fmt$|^<(Vec<.*>|Option<.*>|Cow<.*>|\[.*\]|BTreeMap<.*>|HashMap<.*>|std::net::Ipv[46]Addr|Ipv[46]Addr) as (Debug|Display)>::fmt$')
 def m_ref_display(I, fr, callee, m, args):
     return trait_fmt(I, m.group(2) or m.group(4), args[0], args[1])
+
+
+@model(r'^(?:bitflags::parser::)?to_writer::<.*>$')
+def m_bitflags_to_writer(I, fr, callee, m, args):
+    fmt_append(I, args[1], lit('flags'))
+    return FMT_OK
